@@ -33,6 +33,27 @@ class OpaqueF:
     pass
 
 
+class RealF:
+    """floating-point value modelled as an exact rational (z3 Real term): used where the harness states that rounding cannot change the
+    outcome of the comparisons made on it (small integer inputs); not IEEE arithmetic"""
+    __slots__ = ('t',)
+    def __init__(self, t): self.t = t
+
+
+class FByte:
+    """one byte of a floating-point value that was split by a byte-wise copy; only re-assembly of the complete value is supported"""
+    __slots__ = ('v', 'i')
+    def __init__(self, v, i): self.v = v; self.i = i
+
+
+def realof(v):
+    if isinstance(v, RealF): return v.t
+    if isinstance(v, float):
+        from fractions import Fraction
+        f = Fraction(v); return z3.RealVal(f.numerator) / z3.RealVal(f.denominator) if f.denominator != 1 else z3.RealVal(f.numerator)
+    raise Unsupported('real model: operand %r' % type(v).__name__)
+
+
 class CxxThrow(Exception):
     def __init__(self, obj, ti): self.obj = obj; self.ti = ti
 
@@ -112,7 +133,7 @@ class Interp:
         self.stats = dict(paths=0, queries=0, solver_s=0.0, funcs=set(), findings=[], steps=0, unsupported=[])
         self.ti_base = {}
         self.symcount = 0
-        self.opaque_fp = False
+        self.opaque_fp = False; self.fp2int_range = None; self.fp_model = 'opaque'
         self.concrete_inputs = None; self.model = None; self.pending_obl = []; self.path_obl = 0
         self.reached = {}
         self.inputs = {}; self.observations = []
@@ -300,6 +321,8 @@ class Interp:
 
     def extract_byte(self, v, i, size):
         if isinstance(v, float): v = struct.unpack('<Q', struct.pack('<d', v))[0]
+        if isinstance(v, (OpaqueF, RealF)): return FByte(v, i)
+        if isinstance(v, FByte): return v
         if not isinstance(v, Sym): return (v >> (8 * i)) & 0xff
         if self.mode == 'BV': return Sym(z3.simplify(z3.Extract(8 * i + 7, 8 * i, self.term(v, v.n))), 8)
         return Sym((self.term(v, v.n) / (1 << (8 * i))) % 256, 8)
@@ -317,7 +340,7 @@ class Interp:
             # whole cells that tile the range exactly: compose at cell granularity (no byte splitting, no div/mod terms)
             tiles = sorted(k for k in o.cells if k[0] >= off and k[0] + k[1] <= off + size)
             if tiles and sum(k[1] for k in tiles) == size and not [k for k in o.cells if k[0] < off + size and off < k[0] + k[1] and k not in tiles] \
-                    and not any(isinstance(o.cells[k], float) for k in tiles):
+                    and not any(isinstance(o.cells[k], (float, OpaqueF, RealF, FByte)) for k in tiles):
                 if all(not isinstance(o.cells[k], Sym) for k in tiles):
                     c = sum(o.cells[k] << (8 * (k[0] - off)) for k in tiles)
                 else:
@@ -340,13 +363,17 @@ class Interp:
                     if b is None: b = self.fresh('uninit_%s_%d' % (o.name, off + i), 8)
                     o.cells[(off + i, 1)] = b
                 bs.append(b)
-            if all(not isinstance(b, Sym) for b in bs):
+            if any(isinstance(b, FByte) for b in bs):
+                if size == 8 and all(isinstance(b, FByte) and b.v is bs[0].v and b.i == i for i, b in enumerate(bs)): c = bs[0].v
+                else: raise Unsupported('partial load of a floating-point value')
+            elif all(not isinstance(b, Sym) for b in bs):
                 c = sum(b << (8 * i) for i, b in enumerate(bs))
             elif self.mode == 'BV':
                 c = Sym(z3.simplify(z3.Concat(*[self.term(b, 8) for b in reversed(bs)])) if size > 1 else self.term(bs[0], 8), size * 8)
             else:
                 c = Sym(z3.Sum([self.term(b, 8) * (1 << (8 * i)) for i, b in enumerate(bs)]), size * 8)
         if isinstance(ty, IntTy):
+            if isinstance(c, (OpaqueF, RealF)) and ty.n == 64: return c       # bits of a floating-point value that is only moved around
             if isinstance(c, float): raise Unsupported('int load of float cell')
             if ty.n < size * 8:
                 c = self.trunc(c, size * 8, ty.n)
@@ -355,7 +382,7 @@ class Interp:
             if isinstance(c, Sym): return c
             return c
         if isinstance(ty, FloatTy):
-            if isinstance(c, float): return c
+            if isinstance(c, (float, OpaqueF, RealF)): return c
             if isinstance(c, Sym): return c          # raw bits of a double that is only moved around (any arithmetic on it is refused / opaque)
             return struct.unpack('<d', struct.pack('<Q', c))[0] if ty.k == 'double' else struct.unpack('<f', struct.pack('<I', c))[0]
         raise Unsupported('load ' + ty.key())
@@ -500,6 +527,7 @@ class Interp:
         return (-(1 << (n - 1)), (1 << (n - 1)) - 1)
 
     def intbin(self, op, n, a, b, flags):
+        if op in ('or', 'and', 'xor') and not isinstance(a, Sym) and isinstance(b, Sym): a, b = b, a          # commutative: constant second
         x = self.term(a, n); y = self.term(b, n); W = 1 << n
         if op in ('add', 'sub', 'mul') and not (op == 'mul' and isinstance(a, Sym) and isinstance(b, Sym)):
             va = (a.s, a.slo, a.shi) if isinstance(a, Sym) and a.s is not None else self.signed_view(a, n)
@@ -589,8 +617,17 @@ class Interp:
             if op == 'ashr':
                 s = self.signed_t(x, n); return Sym(self.canon_t(z3.If(s >= 0, s / (1 << b), -((-s + (1 << b) - 1) / (1 << b))), n), n)
             if op == 'or' and b == 0: return a
+            if op == 'or' and a.tz and b < (1 << a.tz):             # (hi << k) | constant low part: disjoint, exact as a sum
+                r = Sym(x + b, n, alo + b, ahi + b)
+                hi_part = a.src[1] if a.src and a.src[0] == 'shl' and a.src[2] == a.tz and a.hi < W else None
+                r.parts = (hi_part, b, a.tz)
+                return r
             if op == 'or' and b != 0 and ahi < (b & -b):             # constant with only higher bits set: disjoint, exact as a sum
-                r = Sym(x + b, n, alo + b, ahi + b); return r
+                r = Sym(x + b, n, alo + b, ahi + b)
+                k = (((b & -b).bit_length() - 1) // 8) * 8           # byte-aligned split point: stores keep the symbolic low part as one cell
+                while k > 0 and ahi >= (1 << k): k += 8
+                if 0 < k < n and ahi < (1 << k): r.parts = (b >> k, a, k)
+                return r
             if op == 'and' and b != 0 and (b & (b + 1)) != 0:
                 # mask that keeps a contiguous field [lo_bit, hi_bit]: (x / 2^lo) mod 2^w * 2^lo
                 lo_bit = (b & -b).bit_length() - 1; fld = b >> lo_bit
@@ -609,7 +646,7 @@ class Interp:
                     hi_part = p.src[1] if p.src and p.src[0] == 'shl' and p.src[2] == p.tz and p.hi < W else None
                     r.parts = (hi_part, q, p.tz)
                     return r
-        raise Unsupported('INT mode: %s i%d with symbolic operand(s)' % (op, n))
+        raise Unsupported('INT mode: %s i%d with symbolic operand(s) [%s | %s]' % (op, n, (a.lo, a.hi, a.tz) if isinstance(a, Sym) else a, (b.lo, b.hi, b.tz) if isinstance(b, Sym) else b))
 
     def icmp(self, pred, n, a, b):
         if not isinstance(a, Sym) and not isinstance(b, Sym):
@@ -903,6 +940,10 @@ class Interp:
                     if isinstance(I.ty, FloatTy):
                         a, b = self.val(I.a, fr), self.val(I.b, fr)
                         self.path_ops.add(op)
+                        if isinstance(a, RealF) or isinstance(b, RealF):
+                            ra, rb = realof(a), realof(b)
+                            if op == 'fdiv': self.assume(rb != 0)            # division by zero gives inf/NaN, which the rational model has not: outside the model (callers guard it)
+                            fr[I.dest] = RealF({'fadd': lambda: ra + rb, 'fsub': lambda: ra - rb, 'fmul': lambda: ra * rb, 'fdiv': lambda: ra / rb}[op]()); continue
                         if isinstance(a, (OpaqueF, Sym)) or isinstance(b, (OpaqueF, Sym)):
                             if not self.opaque_fp: raise Unsupported('symbolic float op')
                             fr[I.dest] = OpaqueF(); continue
@@ -914,7 +955,15 @@ class Interp:
                     fr[I.dest] = self.icmp(I.pred, n, self.val(I.a, fr), self.val(I.b, fr))
                 elif op == 'fcmp':
                     a, b = self.val(I.a, fr), self.val(I.b, fr)
-                    if isinstance(a, (OpaqueF, Sym)) or isinstance(b, (OpaqueF, Sym)):
+                    if isinstance(a, RealF) or isinstance(b, RealF):
+                        ra, rb = realof(a), realof(b); p = I.pred
+                        base = {'eq': ra == rb, 'gt': ra > rb, 'ge': ra >= rb, 'lt': ra < rb, 'le': ra <= rb, 'ne': ra != rb}
+                        if p in ('true', 'ord'): fr[I.dest] = 1
+                        elif p in ('false', 'uno'): fr[I.dest] = 0
+                        else:
+                            c = z3.simplify(base[p[1:]])
+                            fr[I.dest] = 1 if z3.is_true(c) else 0 if z3.is_false(c) else Sym(c, 1)
+                    elif isinstance(a, (OpaqueF, Sym)) or isinstance(b, (OpaqueF, Sym)):
                         if not self.opaque_fp: raise Unsupported('symbolic float compare')
                         fr[I.dest] = self.fresh('fcmp', 1)           # outcome of a comparison of opaque values: both ways explored
                     else:
@@ -930,7 +979,8 @@ class Interp:
                         fr[I.dest] = int(r)
                 elif op == 'fneg':
                     a = self.val(I.a, fr)
-                    if isinstance(a, (OpaqueF, Sym)):
+                    if isinstance(a, RealF): fr[I.dest] = RealF(-a.t)
+                    elif isinstance(a, (OpaqueF, Sym)):
                         if not self.opaque_fp: raise Unsupported('symbolic fneg')
                         fr[I.dest] = OpaqueF()
                     else: fr[I.dest] = -a
@@ -953,12 +1003,30 @@ class Interp:
                         if isinstance(a, Sym) and z3.is_bool(a.t): a = Sym(self.term(a, 1), 1)
                         fr[I.dest] = self.sext(a, st.n, I.ty.n)
                     elif op in ('sitofp', 'uitofp'):
-                        if isinstance(a, Sym):
+                        if isinstance(a, Sym) and self.fp_model == 'real' and self.mode == 'INT':
+                            fr[I.dest] = RealF(z3.ToReal(self.sterm(a, st.n) if op == 'sitofp' else self.term(a, st.n)))
+                        elif isinstance(a, Sym):
                             if not self.opaque_fp: raise Unsupported('symbolic int->fp')
                             fr[I.dest] = OpaqueF()
                         else: fr[I.dest] = float(tosigned(a, st.n) if op == 'sitofp' else a)
                     elif op in ('fptosi', 'fptoui'):
-                        if isinstance(a, OpaqueF): fr[I.dest] = self.fresh('fp2int', I.ty.n)
+                        if isinstance(a, RealF):
+                            # truncation toward zero of the exact value; the harness states the range of such values (fp2int_range)
+                            if self.fp2int_range is None: raise Unsupported('real model: fptosi without a stated range')
+                            lo, hi = self.fp2int_range
+                            ti = z3.If(a.t >= 0, z3.ToInt(a.t), -z3.ToInt(-a.t))
+                            self.assume(z3.And(ti >= lo, ti <= hi))
+                            fr[I.dest] = self.from_signed(ti, lo, hi, I.ty.n)
+                        elif isinstance(a, OpaqueF):
+                            v = self.fresh('fp2int', I.ty.n)
+                            if self.fp2int_range is not None:
+                                # harness-stated range of every integer obtained from an opaque floating-point value (justified by a separately proved lemma)
+                                lo, hi = self.fp2int_range
+                                if self.mode == 'INT':
+                                    sv = self.sterm(v, I.ty.n); self.assume(z3.And(sv >= lo, sv <= hi))
+                                else:
+                                    tv = self.term(v, I.ty.n); self.assume(z3.And(tv >= z3.BitVecVal(lo, I.ty.n), tv <= z3.BitVecVal(hi, I.ty.n)))
+                            fr[I.dest] = v
                         else: fr[I.dest] = int(a) & mask(I.ty.n)
                     elif op in ('fpext', 'fptrunc'): fr[I.dest] = a
                     else: raise Unsupported(op)
